@@ -5,7 +5,13 @@ open Jwt Jwt.Wire Jwt.Drive
 def handle (fields : List String) : String :=
   match handleBasic fields with
   | some r => r
-  | none => "bad-op"
+  | none =>
+    match handleDecode fields with
+    | some r => r
+    | none =>
+      match handleEncode fields with
+      | some r => r
+      | none => "bad-op"
 
 partial def loop (h : IO.FS.Stream) (out : IO.FS.Stream) : IO Unit := do
   let line ← h.getLine
